@@ -18,6 +18,9 @@ type ImportSet struct {
 type impGen struct {
 	r     *R
 	mount int
+	// fixed, when set, is the import path to write verbatim (the same written path is reused in
+	// files of different directories, where it denotes different files)
+	fixed string
 }
 
 var (
@@ -35,6 +38,9 @@ var (
 // several equivalent ways.
 func (g *impGen) relImport(from, to string, allowExt bool) (p string, quoted bool) {
 	r := g.r
+	if g.fixed != "" {
+		return g.fixed, false
+	}
 	fd := strings.Split(path.Dir(from), "/")
 	if path.Dir(from) == "." {
 		fd = nil
@@ -280,5 +286,135 @@ func ImportCycle(r *R, n int) *ImportSet {
 		}
 		set.Files[mainPath] = place(mk(liFile{path: mainPath, keyObj: "k0"}), g.importStmt(mainPath, entry, form), form)
 	}
+	return set
+}
+
+// collisionFile builds the body of one file of a collision set: random content, a marker
+// object, and the single-statement object that import keys refer to.
+func (g *impGen) collisionFile(marker, keyObj string) []*LStmt {
+	r := g.r
+	body := g.content(r.Range(1, 4), 0)
+	body = append(body, &LStmt{Key: []string{marker}, Val: LLit(marker)})
+	ko := &LStmt{Key: []string{keyObj}, Val: LLit(marker + " key"), HasBody: true, Body: g.content(r.Range(0, 2), 1)}
+	at := r.Intn(len(body) + 1)
+	return append(body[:at:at], append([]*LStmt{ko}, body[at:]...)...)
+}
+
+func placeImport(r *R, body []*LStmt, st *LStmt, form int, afterTop bool) []*LStmt {
+	if form == 0 {
+		return append([]*LStmt{st}, body...)
+	}
+	lo := 0
+	if afterTop {
+		lo = 1
+	}
+	at := lo
+	if len(body) > lo {
+		at = r.Range(lo, len(body))
+	}
+	return append(body[:at:at], append([]*LStmt{st}, body[at:]...)...)
+}
+
+// ImportCollision generates a file set in which the SAME written import path denotes different
+// files, because it is written in files of different directories: main imports `@x` (x.d2) and
+// `@d/q`; d/q.d2 imports `@x` (d/x.d2, different content); optionally a third level
+// (d/e/r.d2 imports `@x` → d/e/x.d2). Every import form is used. With cyclic, the colliding
+// file closes a cycle (d/q → d/x → d/q) that must be reported.
+func ImportCollision(r *R, cyclic bool) *ImportSet {
+	g := &impGen{r: r}
+	d := Pick(r, []string{"sub", "lib", "d1"})
+	x := Pick(r, []string{"x", "f", "g", "common"})
+	written := x
+	if r.P(0.25) {
+		written = "./" + x
+	}
+	set := &ImportSet{Main: "main.d2", Files: map[string][]*LStmt{}}
+	outer := liFile{path: x + ".d2", keyObj: "k1"}
+	inner := liFile{path: d + "/" + x + ".d2", keyObj: "k1"}
+	q := liFile{path: d + "/q.d2", keyObj: "k2"}
+	set.Files[outer.path] = g.collisionFile("outer", "k1")
+	innerBody := g.collisionFile("inner", "k1")
+	qBody := g.collisionFile("qq", "k2")
+
+	three := !cyclic && r.P(0.3)
+	if three {
+		e := "e"
+		deep := liFile{path: d + "/" + e + "/" + x + ".d2", keyObj: "k1"}
+		rr := liFile{path: d + "/" + e + "/r.d2", keyObj: "k3"}
+		set.Files[deep.path] = g.collisionFile("deep", "k1")
+		rBody := g.collisionFile("rr", "k3")
+		g.fixed = written
+		f := r.Intn(4)
+		rBody = placeImport(r, rBody, g.importStmt(rr.path, deep, f), f, false)
+		g.fixed = ""
+		set.Files[rr.path] = rBody
+		f2 := 1 + r.Intn(3)
+		qBody = placeImport(r, qBody, g.importStmt(q.path, rr, f2), f2, false)
+	}
+	// d/q imports `@x` → d/x.d2
+	g.fixed = written
+	fq := r.Intn(4)
+	if three && fq == 0 {
+		fq = 1
+	}
+	qBody = placeImport(r, qBody, g.importStmt(q.path, inner, fq), fq, false)
+	g.fixed = ""
+	if cyclic {
+		// d/x imports q → cycle d/q → d/x → d/q
+		fx := r.Intn(4)
+		innerBody = placeImport(r, innerBody, g.importStmt(inner.path, q, fx), fx, false)
+		set.Cycle = []string{q.path, inner.path}
+	}
+	set.Files[inner.path] = innerBody
+	set.Files[q.path] = qBody
+
+	// main imports `@x` (→ x.d2) and `@d/q`, in either order
+	mainBody := g.collisionFile("mm", "k0")
+	g.fixed = written
+	f1 := r.Intn(4)
+	s1 := g.importStmt("main.d2", outer, f1)
+	g.fixed = ""
+	f3 := 1 + r.Intn(3)
+	s3 := g.importStmt("main.d2", q, f3)
+	if r.P(0.75) {
+		// outer first in compile order
+		mainBody = placeImport(r, mainBody, s3, f3, false)
+		if f1 == 0 {
+			mainBody = placeImport(r, mainBody, s1, 0, false)
+		} else {
+			mainBody = append([]*LStmt{s1}, mainBody...)
+		}
+	} else {
+		mainBody = append(mainBody, s3)
+		if f1 == 0 {
+			f1 = 1
+			g.fixed = written
+			s1 = g.importStmt("main.d2", outer, 1)
+			g.fixed = ""
+		}
+		mainBody = append(mainBody, s1)
+	}
+	set.Files["main.d2"] = mainBody
+	return set
+}
+
+// ImportVarsBlockString: a file whose markdown label holds a substitution that only the
+// importer can resolve, imported at the top of two files with different vars.
+func ImportVarsBlockString(r *R) *ImportSet {
+	g := &impGen{r: r}
+	set := &ImportSet{Main: "main.d2", Files: map[string][]*LStmt{}}
+	t := g.content(r.Range(0, 2), 0)
+	t = append(t, &LStmt{Raw: "note: |md hello ${v} world |"})
+	set.Files["t.d2"] = t
+	for i, val := range []string{"alpha", "beta"} {
+		name := fmt.Sprintf("f%d.d2", i+1)
+		body := []*LStmt{{Imp: &LImp{Path: "t", Spread: true}, Tag: "import-top"}}
+		body = append(body, &LStmt{Key: []string{"vars"}, HasBody: true, Tag: "vars", Body: []*LStmt{{Key: []string{"v"}, Val: LLit(val)}}})
+		body = append(body, g.content(r.Range(0, 2), 0)...)
+		set.Files[name] = body
+	}
+	set.Files["main.d2"] = append(g.content(r.Range(0, 2), 0),
+		&LStmt{Key: []string{"m1"}, Imp: &LImp{Path: "f1"}, Tag: "import-value"},
+		&LStmt{Key: []string{"m2"}, Imp: &LImp{Path: "f2"}, Tag: "import-value"})
 	return set
 }
